@@ -33,6 +33,13 @@ func (QueryEventScenario) GenCase(r *rand.Rand, prop string) interface{} {
 		{Pattern: "coll", Type: 2, Get: true, Calls: []string{"set"}, Group: pick(r, "", "mg")},
 		{Pattern: "any.$x", Type: 0, Get: true, Calls: []string{"set"}, Group: pick(r, "", "mg", "${x}")},
 	}
+	for i := range c.Pats {
+		// handlers without a group: the query callbacks of one query event
+		// may then overlap
+		if chance(r, 25) {
+			c.Pats[i].Parallel, c.Pats[i].Group = true, ""
+		}
+	}
 	switch r.IntN(3) {
 	case 0:
 		c.Optional = []string{"*"}
@@ -58,6 +65,9 @@ func (QueryEventScenario) GenCase(r *rand.Rand, prop string) interface{} {
 		peer.Ops = append(peer.Ops, op)
 		// query requests at this event
 		burst := 1 + r.IntN(4)
+		if p.Parallel && burst < 2 {
+			burst = 2
+		}
 		if chance(r, 8) {
 			burst = 12 // more than the subscription channel holds
 		}
@@ -73,6 +83,9 @@ func (QueryEventScenario) GenCase(r *rand.Rand, prop string) interface{} {
 			}
 			if chance(r, 30) {
 				q.Script = strings.Split(pick(r, "y,model", "coll", "chg,chg", "notfound", "p:str", "y,y", "err"), ",")
+			} else if p.Parallel && chance(r, 60) {
+				// callbacks that pause, so that those of one query event overlap
+				q.Script = strings.Split(pick(r, "y,model", "y,coll", "y,chg,y", "y,y,notfound"), ",")
 			}
 			peer.Ops = append(peer.Ops, q)
 			if chance(r, 25) {
@@ -288,7 +301,9 @@ func (e *Engine) checkQueryEvents(leakBase int) {
 			h.Violate("C15", "nil-call-early", "", fmt.Sprintf("query event %d: nil call %v after start, configured duration %v", q.ID, q.NilAt[0].Sub(q.Start), dur))
 		}
 		for _, cs := range q.Calls {
-			if cs > q.NilCalls[0] {
+			// (a handler without a group has its callbacks run by any free
+			// worker: the one given nil may start before one queued earlier)
+			if cs > q.NilCalls[0] && !q.Parallel {
 				h.Violate("C15", "call-after-nil", "", fmt.Sprintf("query event %d on %s (group %q): the callback was invoked with a query request after it had been invoked with nil", q.ID, q.RName, q.Group))
 				break
 			}
